@@ -334,3 +334,64 @@ def unit_rewrite_scaling(twin=False):
     r.add("reach.rewrite_paths", DISCHARGED if n >= 2 else UNDECIDED, "symex", 0, "%d" % n, kind="vacuity")
     r.assumptions += ["trxn_add(rxn, c, combine) adds c x rxn to the work reaction (body not under contract)", "which couple (pe_x entry) is used is not pinned"]
     return r
+
+
+def unit_add_other_logk_lookup(twin=False):
+    """add_other_logk, one named expression per iteration: the record added is the one stored in logk_map under the NAME given (anything
+    else is an input error that ends the call with ERROR); the analytic form A1..A6 is used iff one of those six coefficients is non-zero,
+    otherwise log K(25 C) and delta H are added; the volume terms are added in both cases."""
+    from props.common import cases, local, live, writes, check_accumulator_init, entry_arr, text_of, fld, fld0, ctx as _cctx
+    q = "Phreeqc::add_other_logk"
+    fn0 = A.find_function(TIDY, q)
+    r = U.new_unit("C01.add_other_logk.named_expression_and_form", TIDY, q, fn0)
+    ev = A.enum_values_compiled("global_structures.h", ["logK_T0", "delta_h", "T_A1", "T_A6", "delta_v", "MAX_LOG_K_INDICES"])
+    c = _cctx(functional=()); c.enum_values.update(ev); c.log_stores = True
+    f, ex, its, info = U.run_loop_isolated(TIDY, q, 0, ctx=c, inner_modes={"*": "iter"})
+    nf = nm = 0
+    for s in its:
+        has = [p for p in s.pc if "#mhas" in repr(p) and "logk_map" in repr(p)]
+        if not has:
+            r.add("lookup.by_name_in_logk_map", FAILED, "symex", 0, repr(s.pc)[:200]); continue
+        found = not (has[0].op == "not")
+        if found:
+            nf += 1
+            lp = local(info, s, "logk_ptr")
+            key_ok = lp.op == "select" and "#mval" in repr(lp.args[0]) and "fld:logk_map(this)" in repr(lp) and "iter_i" in repr(lp) and "H0.name" in repr(lp)
+            if twin:
+                key_ok = key_ok and "coef" in repr(lp)
+            r.add("found.record_is_the_map's_entry_for_the_name_of_add_logk[i]#%d" % nf, DISCHARGED if key_ok else FAILED, "symex", 0, repr(lp)[:200])
+            an = local(info, s, "analytic")
+            sk = local(info, s, "source_k")
+            ws = [e for e in s.events if e.name == "store" and e.recv is sk]        # stores of this iteration outside the inner loops
+            idxs = [repr(e.args[0]) for e in ws]
+            for hy, analytic in cases(list(s.pc), tm.to_bool(an)):
+                if analytic:
+                    r.add("analytic.no_25C_constant_or_enthalpy_added#%d" % nf, DISCHARGED if not ws else FAILED, "symex", 0, repr(idxs))
+                else:
+                    want = sorted(["E.logK_T0", "E.delta_h"]); got = sorted(idxs)
+                    okw = got == want or got == sorted([str(ev["logK_T0"]), str(ev["delta_h"])])
+                    r.add("not_analytic.logK_25C_and_delta_H_added_once_each#%d" % nf, DISCHARGED if okw else FAILED, "symex", 0, repr(idxs))
+        else:
+            nm += 1
+            okr = s.status == "ret" and any(e.name.endswith("error_msg") for e in U.iter_events(s))
+            U.discharge_valid(r, "missing.input_error_counted", list(s.pc), tm.eq(fld(ex, s, "input_error", "I"), fld0(ex, s, "input_error", "I") + tm.num(1, "I")))
+            r.add("missing.reported_and_call_ends_with_ERROR", DISCHARGED if okr and tm.isnum(s.ret) and s.ret.args[0] == 0 else FAILED, "symex", 0, repr(s.ret))
+    # detection loop: analytic becomes true exactly when a coefficient A1..A6 is non-zero
+    nd = 0
+    loops = [x for x in A.walk(fn0) if x.get("kind") == "ForStmt"]
+    for s in info["inner_iters"].get(1, []):
+        if s.status not in ("run", "cont", "brk"):
+            continue
+        nd += 1
+        lp = local(info, s, "logk_ptr"); j = tm.sym("iter_j", "I")
+        coefj = tm.select(entry_arr(ex, s, ("m", "R")), tm.app("fld:log_k", (lp,), "P"), j)
+        an = local(info, s, "analytic")
+        for hy, nz in cases(list(s.pc), tm.not_(tm.eq(coefj, tm.num(0)))):
+            if nz:
+                r.add("detect.non_zero_coefficient_sets_analytic#%d" % nd, DISCHARGED if an is tm.TRUE or (tm.isnum(an) and an.args[0] == 1) else FAILED, "symex", 0, repr(an))
+            else:
+                r.add("detect.zero_coefficient_leaves_it#%d" % nd, DISCHARGED if an is tm.sym("iter_analytic", "B") or repr(an) == "iter_analytic" else FAILED, "symex", 0, repr(an))
+    check_accumulator_init(r, fn0, TIDY, loops[1], "analytic", "detect", zero=("false", "FALSE", "0"))
+    r.add("reach.found_missing_detect", DISCHARGED if nf >= 2 and nm and nd >= 2 else UNDECIDED, "symex", 0, "%d/%d/%d" % (nf, nm, nd), kind="vacuity")
+    r.assumptions += ["str_tolower(token) lower-cases the key in place (the map is keyed by lower-case names)", "the per-coefficient additions are C01.add_other_logk.scaled_addition"]
+    return r
